@@ -79,10 +79,12 @@ HookName(n) == n.c[1].c[2].v
 HookWrapped(n) == n.c[2].c[1].c[1]
 HookArgs(n) == Tail(n.c[2].c)
 
-(* every identifier-ish name occurring in a tree *)
+(* every variable name (binding or reference) occurring in a tree; property names and object   *)
+(* keys (attribute "name", set by the normaliser for swc IdentName nodes) are not variables    *)
+IsNameOnlyIdent(n) == n.t = "Identifier" /\ (n.a = "name" \/ n.a = "name;rp")
 RECURSIVE Names(_)
 Names(n) ==
-  (IF n.t \in {"Identifier", "PrivateName"} THEN {n.v} ELSE {})
+  (IF n.t = "Identifier" /\ ~IsNameOnlyIdent(n) THEN {n.v} ELSE {})
     \cup UNION {Names(n.c[i]) : i \in 1..Len(n.c)}
 
 RECURSIVE TreeSize(_)
